@@ -255,6 +255,25 @@ func (ex *Exec) intrinsic(fr *Frame, ins ssa.Instruction, fn *ssa.Function, args
 			if name == "(*WaitGroup).Wait" {
 				ex.sharedHavoc("WaitGroup.Wait")
 			}
+			if _, declared := ex.prog.GhostFields["$wgadds"]; declared && name == "(*WaitGroup).Add" && len(args) == 2 {
+				// ghost: how many units this activation has added to the group (token argument for `go` statements)
+				func() {
+					defer func() {
+						if r := recover(); r != nil {
+							if _, isU := r.(unsupported); !isU {
+								panic(r)
+							}
+						}
+					}()
+					ref := ex.refOf(args[0])
+					_, srt := ex.ghostSort("$wgadds")
+					reg := ex.st.region(ex, "X|$wgadds", SArr(SInt, srt))
+					d := ex.scalarTerm(args[1], types.Typ[types.Int])
+					if d.S == srt {
+						ex.st.heap["X|$wgadds"] = ex.ts.Store(reg, ref, ex.ts.Add(ex.ts.Select(reg, ref), d))
+					}
+				}()
+			}
 			return nil, true
 		case "(*Cond).Broadcast", "(*Cond).Signal":
 			return nil, true
@@ -434,6 +453,32 @@ func (ex *Exec) evalCall(e *Expr, env *Env) Val {
 			var r Val
 			n := *env
 			ex.inSnapshot(env.old, func() { r = ex.eval1(args[0], &n) })
+			return r
+		case "atlock":
+			// atlock(e): value of e at the start of the current critical section (right after the most recent Lock)
+			if env.fr == nil || env.fr.lockSnap == nil {
+				unsup("contract: unknown identifier atlock: no Lock on this path")
+			}
+			var r Val
+			ne := *env
+			ex.inSnapshot(env.fr.lockSnap, func() { r = ex.eval1(args[0], &ne) })
+			return r
+		case "atexit":
+			// atexit(k, e): value of e in the state in which loop k of this function was left on the current path
+			if len(args) != 2 {
+				unsup("contract: atexit(k, e)")
+			}
+			n, isC := ex.eval1(args[0], env).(Scalar)
+			if !isC || n.Const == nil || env.fr == nil {
+				unsup("contract: atexit needs a constant loop ordinal")
+			}
+			snap := env.fr.loopExit[int(n.Const.Int64())]
+			if snap == nil {
+				unsup("contract: unknown identifier atexit(%d): the loop was not left on this path", n.Const.Int64())
+			}
+			var r Val
+			ne := *env
+			ex.inSnapshot(snap, func() { r = ex.eval1(args[1], &ne) })
 			return r
 		case "loopentry":
 			// value of an expression when the innermost enclosing cut loop was entered
